@@ -305,6 +305,13 @@ def fillStep (c : Csr K) (S : Nat → Nat) (st : SymSt K) (e : Nat × Nat) : Exc
         .ok { st2 with off := if col ≠ n then inc (inc st2.off n) col else inc st2.off n }
       else .ok st2
 
+/-- one pass of `for (i = 0; i < no_elem; i++) sym_val_P[i] /= 2.0;` (the cell is read: an unwritten one is an
+    uninitialised read) -/
+def readCell (st : SymSt K) (p : Nat) : Except Err (Nat × K) :=
+  match st.mem.get p with
+  | some cv => .ok (cv.1, cv.2 / ((Gen.TsneOps.symDivisor : Nat) : K))
+  | none => .error (Err.uninit "sym_val_P")
+
 /-- `symmetrizeMatrix(&row_P, &col_P, &val_P, N)` -/
 def symmetrizeCsr (N : Nat) (c : Csr K) : Except Err (Csr K) :=
   if c.wellFormed N = false then .error (.oob "malformed CSR input") else
@@ -316,9 +323,7 @@ def symmetrizeCsr (N : Nat) (c : Csr K) : Except Err (Csr K) :=
   | .error e => .error e
   | .ok st =>
     -- sym_val_P[i] /= 2.0  (every cell is read: an unwritten one is an uninitialised read)
-    match (List.range noElem).mapM (fun p => match st.mem.get p with
-        | some cv => Except.ok (cv.1, cv.2 / ((Gen.TsneOps.symDivisor : Nat) : K))
-        | none => Except.error (Err.uninit "sym_val_P")) with
+    match (List.range noElem).mapM (readCell st) with
     | .error e => .error e
     | .ok cells =>
       .ok ⟨((List.range (N + 1)).map S).toArray, (cells.map (·.1)).toArray, (cells.map (·.2)).toArray⟩
